@@ -19,6 +19,9 @@ package listener
 
 //@ func Dispatch.Notify(l, world, evt)
 //@   props C12
+//@   requires world != nil
+//@   requires (evt.EventTypes & event.EntityRemoved) != 0 ==> isLocked(world)
+//@   requires (evt.EventTypes & event.EntityRemoved) == 0 ==> !isLocked(world)
 //@   requires distinctListeners(l.listeners)
 //@   requires forall k int :: 0 <= k && k < len(l.listeners) ==> l.listeners[k] != nil
 //@   requires evt.OldRelation != nil ==> validID(evt.OldRelation.id)
